@@ -1,0 +1,13 @@
+//go:build verif
+
+// Contracts for govc (contract-based deductive verification, see /verif/DESIGN.md).
+// Comment-only file: it adds no code and is compiled only with -tags verif.
+
+package plugin
+
+// The series cache stores the bytes this serializer returns for a 64-bit (day,
+// fingerprint) key: all eight bytes of the key, so two different keys never share
+// a cache entry.
+//@ func (*QrynWriterPlugin).CreateStaticServiceRegistry$5 [C04]
+//@   ensures whole-key: len(result) == 8
+//@   ensures injective: result[0] + 256*result[1] + 65536*result[2] + 16777216*result[3] + 4294967296*result[4] + 1099511627776*result[5] + 281474976710656*result[6] + 72057594037927936*result[7] == val
